@@ -148,9 +148,9 @@ struct tcase_t
     }
 };
 
-constexpr int nlandscapes = 8;
+constexpr int nlandscapes = 10;
 const char*   landscape_names[nlandscapes] = {"smooth-bowl", "plateau", "quantised-bowl", "minimum-in-corner", "random-1e3", "monotone",
-                                              "constant", "random-4-levels"};
+                                              "constant", "random-4-levels", "tiny-valued-bowl", "values-one-ulp-apart"};
 
 double landscape(const tcase_t& c, const std::vector<long>& idx)
 {
@@ -178,7 +178,11 @@ double landscape(const tcase_t& c, const std::vector<long>& idx)
     case 4: return (static_cast<double>(splitmix(lin + 1000003ULL * static_cast<uint64_t>(c.seed)) >> 11) / 9007199254740992.0) * 2e3 - 1e3;
     case 5: return b + mono;
     case 6: return b;
-    default: return static_cast<double>(splitmix(lin + 1000003ULL * static_cast<uint64_t>(c.seed)) % 4);
+    case 7: return static_cast<double>(splitmix(lin + 1000003ULL * static_cast<uint64_t>(c.seed)) % 4);
+    case 8: return bowl * std::pow(10.0, -16.0 - 4.0 * std::fabs(c.coeffs[8])); // values of 1e-16..1e-20: distinct, but far below 1
+    default:
+        // distinct values a few ulps apart (near ties are not ties: the order of the returned steps is still defined)
+        return (1.0 + std::fabs(c.coeffs[8])) * (1.0 + static_cast<double>(splitmix(lin + 1000003ULL * static_cast<uint64_t>(c.seed)) % 9) * 2.220446049250313e-16);
     }
 }
 
